@@ -108,7 +108,26 @@ def chk_wf_props(inp):
     return None
 
 
-CHECKS = {'cx': chk_cx, 'reject': chk_reject, 'wf_props': chk_wf_props}
+def chk_cx_history(inp):
+    """several profiles on ONE object with different user alphabets / sizes: each equals the profile of a fresh object"""
+    seq, seed = inp
+    rng = random.Random(seed)
+    o = sp(seq)
+    N = len(seq)
+    import numpy as np
+    for step in range(4):
+        kw = dict(complexityType=rng.choice(['WF', 'LC', 'LZW']), blobLen=rng.randint(2, N), stepSize=rng.choice([1, 2]), wordSize=1)
+        if rng.random() < 0.7:
+            kw['userAlphabet'] = rand_user_alphabet(rng)
+        else:
+            kw['alphabetSize'] = rng.choice(SIZES)
+        a, b = outcome(o.get_linear_complexity, **kw), outcome(sp(seq).get_linear_complexity, **kw)
+        if a[0] != b[0] or (a[0] == 'ok' and not np.allclose(np.asarray(a[1], dtype=float), np.asarray(b[1], dtype=float), rtol=1e-12, atol=1e-14)):
+            return 'call %d on one object: get_linear_complexity(%s) on %s differs from a fresh object: %r vs %r' % (step + 1, kw, seq, a, b)
+    return None
+
+
+CHECKS = {'cx': chk_cx, 'reject': chk_reject, 'wf_props': chk_wf_props, 'cx_history': chk_cx_history}
 
 
 def rand_user_alphabet(rng):
@@ -145,6 +164,7 @@ def work(seed, count):
     run_checks(r, 'cx', chk_cx, inps)
     seqs = [random_sequence(rng)[:rng.choice([3, 6, 10, 25])] for _ in range(count)]
     run_checks(r, 'reject', chk_reject, seqs[:count // 2 + 1])
+    run_checks(r, 'cx_history', chk_cx_history, [(s, rng.randint(0, 10 ** 6)) for s in seqs if len(s) >= 3])
     run_checks(r, 'wf_props', chk_wf_props, [(s, rng.choice(SIZES), rng.randint(0, 10 ** 6)) for s in seqs])
     return r
 
